@@ -758,11 +758,28 @@ struct TypedRunner<'c, 'a> {
     ctx: &'c mut Ctx<'a>,
     case: &'c Case,
     infinite_float: bool,
+    lone_absent_item: bool,
+}
+
+impl<'c, 'a> TypedRunner<'c, 'a> {
+    fn tag(&self) -> &'static str {
+        if self.infinite_float {
+            ":infinite_float"
+        } else if self.lone_absent_item {
+            ":lone_absent_item"
+        } else {
+            ""
+        }
+    }
 }
 
 impl<'c, 'a> TypedVisitor for TypedRunner<'c, 'a> {
     fn note_infinite_float(&mut self, present: bool) {
         self.infinite_float = present;
+    }
+
+    fn note_lone_absent_item(&mut self, present: bool) {
+        self.lone_absent_item = present;
     }
 
     fn visit<T>(&mut self, type_name: &'static str, value: T, eq: fn(&T, &T) -> bool)
@@ -781,14 +798,14 @@ impl<'c, 'a> TypedVisitor for TypedRunner<'c, 'a> {
             match check_text::<T>(self.ctx, self.case, type_name, &t, eq) {
                 Err(e) => self.ctx.violate(
                     "C09.roundtrip_typed",
-                    &format!("typed:{}:parse_error{}", k.name(), if self.infinite_float { ":infinite_float" } else { "" }),
+                    &format!("typed:{}:parse_error{}", k.name(), self.tag()),
                     format!("[{type_name}] value={} printed=`{}` does not parse: {}", show_dbg(&value, 200), show(&t, 200), show(&e, 120)),
                 ),
                 Ok(v2) => {
                     if !eq(&value, &v2) {
                         self.ctx.violate(
                             "C09.roundtrip_typed",
-                            &format!("typed:{}:value_differs{}", k.name(), if self.infinite_float { ":infinite_float" } else { "" }),
+                            &format!("typed:{}:value_differs{}", k.name(), self.tag()),
                             format!("[{type_name}] value={} printed=`{}` parsed back={}", show_dbg(&value, 200), show(&t, 200), show_dbg(&v2, 200)),
                         );
                     }
@@ -996,7 +1013,7 @@ fn run_case(ctx: &mut Ctx<'_>, case: &Case) {
         Body::Typed(tv) => {
             ctx.rec("case", &format!("#{} typed {}", case.id, tv.type_name()));
             ctx.count("cases_typed", 1);
-            let mut runner = TypedRunner { ctx, case, infinite_float: false };
+            let mut runner = TypedRunner { ctx, case, infinite_float: false, lone_absent_item: false };
             tv.dispatch(&mut runner);
         }
         Body::Model(vj) => {
